@@ -10,6 +10,8 @@ Import ListNotations.
 (* small list / map facts *)
 
 Definition is_flow (f : Z) (p : pkt) : bool := Z.eqb (flow p) f.
+(* p belongs to class k (its flow is mapped onto k) *)
+Definition is_class (c : mq_cfg) (k : Z) (p : pkt) : bool := Z.eqb (cls c (flow p)) k.
 Fixpoint sumsz (l : list pkt) : Z := match l with [] => 0%Z | p :: t => (psize p + sumsz t)%Z end.
 Fixpoint zsum (g : Z -> Z) (l : list Z) : Z := match l with [] => 0%Z | f :: t => (g f + zsum g t)%Z end.
 
@@ -65,8 +67,8 @@ Proof.
   - intros H. exists f. split; [exact H|apply Z.eqb_refl].
 Qed.
 
-Lemma filter_is_flow_in f p l : In p (filter (is_flow f) l) -> flow p = f /\ In p l.
-Proof. intros H. apply filter_In in H as [H1 H2]. unfold is_flow in H2. apply Z.eqb_eq in H2. auto. Qed.
+Lemma filter_is_class_in c f p l : In p (filter (is_class c f) l) -> cls c (flow p) = f /\ In p l.
+Proof. intros H. apply filter_In in H as [H1 H2]. unfold is_class in H2. apply Z.eqb_eq in H2. auto. Qed.
 
 (* ---------------------------------------------------------------------------------------------- *)
 (* what the scheduler holds *)
@@ -74,20 +76,25 @@ Proof. intros H. apply filter_In in H as [H1 H2]. unfold is_flow in H2. apply Z.
 Definition child_pkts (s : mq) : list pkt :=
   match mchild s with CInit p => [p] | CTx p _ => [p] | _ => [] end.
 
-(* packets of flow f inside the scheduler, oldest first: in transmission, travelling in the granted get, in the store *)
-Definition held_flow (s : mq) (f : Z) : list pkt :=
-  filter (is_flow f) (child_pkts s) ++ map snd (sq_held (mstores s f)).
+(* packets of class k inside the scheduler, oldest first: in transmission, travelling in the granted get, in the store *)
+Definition held_class (c : mq_cfg) (s : mq) (k : Z) : list pkt :=
+  filter (is_class c k) (child_pkts s) ++ map snd (sq_held (mstores s k)).
+(* packets of flow f inside the scheduler, oldest first (they sit in the queue of the class of f) *)
+Definition held_flow (c : mq_cfg) (s : mq) (f : Z) : list pkt := filter (is_flow f) (held_class c s (cls c f)).
+
+(* rate positive; the schedulers that test queue_count[class] (RR, WRR) use the identity class map *)
+Definition wf (c : mq_cfg) : Prop := 0 < rate c /\ (by_count c = true -> forall f, cls c f = f).
 
 Definition puts (a : saction) : list pkt := match a with SPut p => [p] | _ => [] end.
 
 (* pc-independent part of the invariant; ins / outs = packets put so far / forwarded so far *)
 Record Core (c : mq_cfg) (ins outs : list pkt) (s : mq) : Prop := {
   i_cur : mcur s = match mchild s with CTx p _ => Some p | _ => None end;
-  i_cons : forall f, filter (is_flow f) ins = filter (is_flow f) outs ++ held_flow s f;
-  i_qc : forall f, mqc s f = Z.of_nat (length (held_flow s f));
-  i_qb : forall f, mqb s f = sumsz (held_flow s f);
-  i_tot : mtotal s = zsum (mqc s) (dflows c);
-  i_ins : forall p, In p ins -> In (flow p) (flows c) /\ (0 <= psize p)%Z;
+  i_cons : forall f, filter (is_class c f) ins = filter (is_class c f) outs ++ held_class c s f;
+  i_qc : forall f, mqc s f = Z.of_nat (length (held_flow c s f));
+  i_qb : forall f, mqb s f = sumsz (held_flow c s f);
+  i_tot : mtotal s = zsum (fun k => Z.of_nat (length (held_class c s k))) (dclasses c);
+  i_ins : forall p, In p ins -> In (cls c (flow p)) (classes c) /\ (0 <= psize p)%Z;
   i_tokns : sq_nostrand (mtok s);
   i_tokwake : get (mtok s) = GWaiting -> (0 < mtotal s)%Z -> items (mtok s) <> [];
   i_dl : forall p dl, mchild s = CTx p dl -> mnow s <= dl
@@ -114,39 +121,67 @@ Record Mid (s : mq) : Prop := {
   m_tok : get (mtok s) = GNone
 }.
 
-Lemma held_flow_eq s s' f :
-  mchild s' = mchild s -> sq_held (mstores s' f) = sq_held (mstores s f) -> held_flow s' f = held_flow s f.
-Proof. intros H1 H2. unfold held_flow, child_pkts. rewrite H1, H2. reflexivity. Qed.
+Lemma held_class_eq c s s' f :
+  mchild s' = mchild s -> sq_held (mstores s' f) = sq_held (mstores s f) -> held_class c s' f = held_class c s f.
+Proof. intros H1 H2. unfold held_class, child_pkts. rewrite H1, H2. reflexivity. Qed.
 
-Lemma held_in_ins c ins outs s f p : Core c ins outs s -> In p (held_flow s f) -> flow p = f /\ In p ins.
+Lemma held_in_ins c ins outs s f p : Core c ins outs s -> In p (held_class c s f) -> cls c (flow p) = f /\ In p ins.
 Proof.
-  intros C H. apply (filter_is_flow_in f p ins). rewrite (i_cons _ _ _ _ C f). apply in_or_app. right. exact H.
+  intros C H. apply (filter_is_class_in c f p ins). rewrite (i_cons _ _ _ _ C f). apply in_or_app. right. exact H.
 Qed.
 
 Lemma qc_nonneg c ins outs s f : Core c ins outs s -> (0 <= mqc s f)%Z.
 Proof. intros C. rewrite (i_qc _ _ _ _ C f). lia. Qed.
 
 Lemma total_nonneg c ins outs s : Core c ins outs s -> (0 <= mtotal s)%Z.
-Proof. intros C. rewrite (i_tot _ _ _ _ C). apply zsum_nonneg. intros f _. eapply qc_nonneg; eauto. Qed.
+Proof. intros C. rewrite (i_tot _ _ _ _ C). apply zsum_nonneg. intros f _. lia. Qed.
 
-Lemma dflows_in c f : In f (dflows c) <-> In f (flows c).
-Proof. unfold dflows. apply nodup_In. Qed.
+Lemma filter_all {A} (P : A -> bool) l : (forall x, In x l -> P x = true) -> filter P l = l.
+Proof.
+  induction l as [|x t IH]; intros H; cbn; [reflexivity|]. rewrite (H x (or_introl eq_refl)), IH; [reflexivity|].
+  intros y Hy. apply H. right. exact Hy.
+Qed.
 
-Lemma dflows_nodup c : NoDup (dflows c).
+Lemma filter_flow_class c f l : filter (is_flow f) (filter (is_class c (cls c f)) l) = filter (is_flow f) l.
+Proof.
+  induction l as [|x t IH]; cbn; [reflexivity|]. unfold is_class at 1, is_flow at 2.
+  destruct (Z.eqb_spec (flow x) f) as [E|N].
+  - rewrite E, Z.eqb_refl. cbn. unfold is_flow at 1. rewrite E, Z.eqb_refl, IH. reflexivity.
+  - destruct (cls c (flow x) =? cls c f)%Z; [cbn; unfold is_flow at 1; destruct (Z.eqb_spec (flow x) f); [contradiction|]|]; exact IH.
+Qed.
+
+Lemma held_flow_in c s f p : In p (held_flow c s f) -> flow p = f /\ In p (held_class c s (cls c f)).
+Proof. unfold held_flow. intros H. apply filter_In in H as [H1 H2]. unfold is_flow in H2. apply Z.eqb_eq in H2. auto. Qed.
+
+Lemma held_flow_ext c s s' f : (forall k, held_class c s' k = held_class c s k) -> held_flow c s' f = held_flow c s f.
+Proof. intros H. unfold held_flow. rewrite H. reflexivity. Qed.
+
+(* under the identity class map the queue of class f holds exactly the packets of flow f *)
+Lemma held_flow_id c ins outs s f :
+  Core c ins outs s -> (forall g, cls c g = g) -> held_flow c s f = held_class c s f.
+Proof.
+  intros C Id. unfold held_flow. rewrite Id. apply filter_all. intros p Hp.
+  destruct (held_in_ins c ins outs s f p C Hp) as [E _]. rewrite Id in E. unfold is_flow. apply Z.eqb_eq. exact E.
+Qed.
+
+Lemma dflows_in c f : In f (dclasses c) <-> In f (classes c).
+Proof. unfold dclasses. apply nodup_In. Qed.
+
+Lemma dflows_nodup c : NoDup (dclasses c).
 Proof. apply NoDup_nodup. Qed.
 
 (* with nothing in flight, what is held of f is what the store of f contains *)
-Lemma mid_held s f : Mid s -> held_flow s f = map snd (items (mstores s f)).
+Lemma mid_held c s f : Mid s -> held_class c s f = map snd (items (mstores s f)).
 Proof.
-  intros M. unfold held_flow, child_pkts. rewrite (m_child _ M). cbn.
+  intros M. unfold held_class, child_pkts. rewrite (m_child _ M). cbn.
   unfold sq_held. rewrite (m_getf _ M f). reflexivity.
 Qed.
 
 Lemma nonempty_spec c ins outs s f :
-  Core c ins outs s -> Mid s -> nonempty c s f = negb (nilb (items (mstores s f))).
+  wf c -> Core c ins outs s -> Mid s -> nonempty c s f = negb (nilb (items (mstores s f))).
 Proof.
-  intros C M. unfold nonempty. destruct (by_count c); [|reflexivity].
-  rewrite (i_qc _ _ _ _ C f), (mid_held s f M), map_length.
+  intros [_ Id] C M. unfold nonempty. destruct (by_count c); [|reflexivity].
+  rewrite (i_qc _ _ _ _ C f), (held_flow_id c ins outs s f C (Id eq_refl)), (mid_held c s f M), map_length.
   destruct (items (mstores s f)); reflexivity.
 Qed.
 
@@ -223,7 +258,7 @@ Proof. intros H. induction l as [|x t IH]; cbn; [reflexivity|]. rewrite H, IH. r
 Lemma core_ext c ins outs s s' :
   Core c ins outs s ->
   mcur s' = match mchild s' with CTx p _ => Some p | _ => None end ->
-  (forall g, held_flow s' g = held_flow s g) ->
+  (forall g, held_class c s' g = held_class c s g) ->
   (forall g, mqc s' g = mqc s g) -> (forall g, mqb s' g = mqb s g) -> mtotal s' = mtotal s ->
   mtok s' = mtok s ->
   (forall p dl, mchild s' = CTx p dl -> mnow s' <= dl) ->
@@ -232,9 +267,9 @@ Proof.
   intros C Hcur Hh Hqc Hqb Htot Htok Hdl. constructor.
   - exact Hcur.
   - intros f. rewrite Hh. apply (i_cons _ _ _ _ C).
-  - intros f. rewrite Hqc, Hh. apply (i_qc _ _ _ _ C).
-  - intros f. rewrite Hqb, Hh. apply (i_qb _ _ _ _ C).
-  - rewrite Htot, (zsum_ext _ _ _ Hqc). apply (i_tot _ _ _ _ C).
+  - intros f. rewrite Hqc, (held_flow_ext c s s' f Hh). apply (i_qc _ _ _ _ C).
+  - intros f. rewrite Hqb, (held_flow_ext c s s' f Hh). apply (i_qb _ _ _ _ C).
+  - rewrite Htot, (i_tot _ _ _ _ C). symmetry. apply zsum_ext. intros k. rewrite Hh. reflexivity.
   - apply (i_ins _ _ _ _ C).
   - rewrite Htok. apply (i_tokns _ _ _ _ C).
   - rewrite Htok, Htot. apply (i_tokwake _ _ _ _ C).
@@ -256,10 +291,10 @@ Proof.
   intros C N W. constructor; try (destruct C; assumption).
 Qed.
 
-Lemma held_flow_with_store s f q g :
-  sq_held q = sq_held (mstores s f) -> held_flow (with_store s f q) g = held_flow s g.
+Lemma held_class_with_store c s f q g :
+  sq_held q = sq_held (mstores s f) -> held_class c (with_store s f q) g = held_class c s g.
 Proof.
-  intros H. apply held_flow_eq; [reflexivity|]. cbn. unfold upd.
+  intros H. apply held_class_eq; [reflexivity|]. cbn. unfold upd.
   destruct (Z.eqb_spec g f); [subst; exact H|reflexivity].
 Qed.
 
@@ -268,7 +303,7 @@ Lemma core_with_store c ins outs s f q :
 Proof.
   intros C H. apply (core_ext c ins outs s _ C); [| |intros; reflexivity|intros; reflexivity|reflexivity|reflexivity|].
   - apply (i_cur _ _ _ _ C).
-  - intros g. apply held_flow_with_store. exact H.
+  - intros g. apply held_class_with_store. exact H.
   - apply (i_dl _ _ _ _ C).
 Qed.
 
@@ -318,32 +353,32 @@ Proof.
 Qed.
 
 Lemma nonempty_items c ins outs s f :
-  Core c ins outs s -> Mid s -> nonempty c s f = true -> items (mstores s f) <> [].
+  wf c -> Core c ins outs s -> Mid s -> nonempty c s f = true -> items (mstores s f) <> [].
 Proof.
-  intros C M H. rewrite (nonempty_spec c ins outs s f C M) in H. destruct (items (mstores s f)); [discriminate|discriminate].
+  intros W C M H. rewrite (nonempty_spec c ins outs s f W C M) in H. destruct (items (mstores s f)); [discriminate|discriminate].
 Qed.
 
 Lemma end_pass_inv c ins outs s s' vs :
-  Core c ins outs s -> Mid s -> end_pass c s = Some (s', vs) -> Inv c ins outs s' /\ mnow s' = mnow s.
+  wf c -> Core c ins outs s -> Mid s -> end_pass c s = Some (s', vs) -> Inv c ins outs s' /\ mnow s' = mnow s.
 Proof.
-  intros C M H. unfold end_pass in H. destruct (Z.eqb_spec (mtotal s) 0) as [T|T].
+  intros W C M H. unfold end_pass in H. destruct (Z.eqb_spec (mtotal s) 0) as [T|T].
   - destruct (sq_get fifo_pop (mtok s)) as [q|] eqn:G; [|discriminate]. injection H as <- <-.
     split; [eapply tokget_inv; eauto|reflexivity].
   - destruct (scan (nonempty c s) (pass c)) as [vs0 [[f rem]|]] eqn:Sc.
     + destruct (commit s f (after c rem)) as [s1|] eqn:Cm; [|discriminate]. injection H as <- <-.
       apply scan_some in Sc as (Tf & _).
-      destruct (commit_inv c ins outs s f (after c rem) s1 C M (nonempty_items _ _ _ _ _ C M Tf) Cm) as (I1 & _ & _ & N). auto.
+      destruct (commit_inv c ins outs s f (after c rem) s1 C M (nonempty_items _ _ _ _ _ W C M Tf) Cm) as (I1 & _ & _ & N). auto.
     + injection H as <- <-. split; [apply spin_inv; assumption|reflexivity].
 Qed.
 
 Lemma resume_inv c ins outs s rem s' vs :
-  Core c ins outs s -> Mid s -> resume c s rem = Some (s', vs) -> Inv c ins outs s' /\ mnow s' = mnow s.
+  wf c -> Core c ins outs s -> Mid s -> resume c s rem = Some (s', vs) -> Inv c ins outs s' /\ mnow s' = mnow s.
 Proof.
-  intros C M H. unfold resume in H.
+  intros W C M H. unfold resume in H.
   destruct (scan (nonempty c s) rem) as [vs0 [[f rem']|]] eqn:Sc.
   - destruct (commit s f (after c rem')) as [s1|] eqn:Cm; [|discriminate]. injection H as <- <-.
     apply scan_some in Sc as (Tf & _).
-    destruct (commit_inv c ins outs s f (after c rem') s1 C M (nonempty_items _ _ _ _ _ C M Tf) Cm) as (I1 & _ & _ & N). auto.
+    destruct (commit_inv c ins outs s f (after c rem') s1 C M (nonempty_items _ _ _ _ _ W C M Tf) Cm) as (I1 & _ & _ & N). auto.
   - destruct (end_pass c s) as [[s1 vs1]|] eqn:E; [|discriminate]. injection H as <- <-.
     eapply end_pass_inv; eauto.
 Qed.
@@ -392,37 +427,65 @@ Proof.
   change 0 with (inject_Z 0). rewrite <- Zle_Qle. lia.
 Qed.
 
-Lemma filter_one f p : filter (is_flow f) [p] = if is_flow f p then [p] else [].
+Lemma filter_one c f p : filter (is_class c f) [p] = if is_class c f p then [p] else [].
 Proof. reflexivity. Qed.
+
+Lemma zsum_change g g' k l :
+  NoDup l -> In k l -> (forall j, j <> k -> g' j = g j) -> zsum g' l = (zsum g l - g k + g' k)%Z.
+Proof.
+  induction l as [|x t IH]; cbn; [tauto|]. intros ND [->|Hin] Hj.
+  - inversion ND; subst. assert (E : zsum g' t = zsum g t).
+    { clear IH ND. induction t as [|y t IHt]; cbn; [reflexivity|].
+      rewrite Hj by (intros ->; apply H1; left; reflexivity). rewrite IHt; [reflexivity| |].
+      - intros Hk. apply H1. right. exact Hk.
+      - inversion H2; assumption. }
+    lia.
+  - inversion ND; subst. assert (x <> k) by (intros ->; contradiction).
+    rewrite (Hj x) by assumption. rewrite IH by assumption. lia.
+Qed.
+
+(* a packet joins / leaves the things held: what it means per flow *)
+Lemma filter_flow_one c g p : filter (is_flow g) (if is_class c (cls c g) p then [p] else []) = if is_flow g p then [p] else [].
+Proof.
+  unfold is_class. destruct (Z.eqb_spec (cls c (flow p)) (cls c g)) as [E|N]; cbn; unfold is_flow.
+  - destruct (flow p =? g)%Z; reflexivity.
+  - destruct (Z.eqb_spec (flow p) g) as [E|N']; [exfalso; apply N; rewrite E; reflexivity|reflexivity].
+Qed.
 
 (* ---- SPut ---- *)
 Lemma put_inv c ins outs s p s' o :
   Inv c ins outs s -> mq_act c s (SPut p) = Some (s', o) -> Inv c (ins ++ [p]) (outs ++ forwards o) s'.
 Proof.
   intros [C Sh] H. cbn in H.
-  destruct (memZ (flow p) (flows c) && (0 <=? psize p)%Z) eqn:Cond; [|discriminate].
+  destruct (memZ (cls c (flow p)) (classes c) && (0 <=? psize p)%Z) eqn:Cond; [|discriminate].
   apply andb_true_iff in Cond as [Hf Hs]. apply memZ_In in Hf. apply Z.leb_le in Hs.
   injection H as <- <-. cbn [forwards flat_map]. rewrite app_nil_r.
-  set (f := flow p) in *.
+  set (f := flow p) in *. set (k := cls c f) in *.
   match goal with |- Inv _ _ _ ?x => set (s1 := x) end.
-  assert (Hheld : forall g, held_flow s1 g = held_flow s g ++ (if is_flow g p then [p] else [])).
-  { intros g. unfold held_flow, child_pkts, s1. cbn. unfold upd, is_flow. fold f.
-    destruct (Z.eqb_spec g f) as [->|N].
+  assert (Hheld : forall g, held_class c s1 g = held_class c s g ++ (if is_class c g p then [p] else [])).
+  { intros g. unfold held_class, child_pkts, s1. cbn. unfold upd, is_class. fold f. fold k.
+    destruct (Z.eqb_spec g k) as [->|N].
     - rewrite Z.eqb_refl. rewrite fifo_held_put, map_app. cbn. rewrite app_assoc. reflexivity.
-    - destruct (Z.eqb_spec f g); [congruence|]. rewrite app_nil_r. reflexivity. }
+    - destruct (Z.eqb_spec k g); [congruence|]. rewrite app_nil_r. reflexivity. }
+  assert (Hflow : forall g, held_flow c s1 g = held_flow c s g ++ (if is_flow g p then [p] else [])).
+  { intros g. unfold held_flow. rewrite Hheld, filter_app, filter_flow_one. reflexivity. }
   split.
   - constructor.
     + apply (i_cur _ _ _ _ C).
     + intros g. rewrite (Hheld g), filter_app, (i_cons _ _ _ _ C g), filter_one, app_assoc. reflexivity.
-    + intros g. rewrite (Hheld g), app_length. unfold s1; cbn. unfold upd, is_flow. fold f.
+    + intros g. rewrite (Hflow g), app_length. unfold s1; cbn. unfold upd, is_flow. fold f.
       destruct (Z.eqb_spec g f) as [->|N].
       * rewrite Z.eqb_refl. cbn. rewrite (i_qc _ _ _ _ C f). lia.
       * destruct (Z.eqb_spec f g); [congruence|]. cbn. rewrite (i_qc _ _ _ _ C g). lia.
-    + intros g. rewrite (Hheld g), sumsz_app. unfold s1; cbn. unfold upd, is_flow. fold f.
+    + intros g. rewrite (Hflow g), sumsz_app. unfold s1; cbn. unfold upd, is_flow. fold f.
       destruct (Z.eqb_spec g f) as [->|N].
       * rewrite Z.eqb_refl. cbn. rewrite (i_qb _ _ _ _ C f). lia.
       * destruct (Z.eqb_spec f g); [congruence|]. cbn. rewrite (i_qb _ _ _ _ C g). lia.
-    + unfold s1; cbn. rewrite zsum_upd; [|apply dflows_nodup|apply dflows_in; exact Hf]. rewrite (i_tot _ _ _ _ C). lia.
+    + rewrite (zsum_change (fun j => Z.of_nat (length (held_class c s j))) (fun j => Z.of_nat (length (held_class c s1 j))) k);
+        [|apply dflows_nodup|apply dflows_in; exact Hf|].
+      * rewrite (Hheld k), app_length. unfold is_class. fold f. fold k. rewrite Z.eqb_refl.
+        unfold s1 at 1; cbn [mtotal]. rewrite (i_tot _ _ _ _ C). cbn [length]. lia.
+      * intros j Hj. rewrite (Hheld j). unfold is_class. fold f. fold k. destruct (Z.eqb_spec k j); [congruence|]. rewrite app_nil_r. reflexivity.
     + intros p0 Hin. apply in_app_or in Hin as [Hin|[<-|[]]]; [apply (i_ins _ _ _ _ C); exact Hin|]. split; assumption.
     + unfold s1; cbn. destruct (mtotal s =? 0)%Z; [apply fifo_nostrand_put|apply (i_tokns _ _ _ _ C)].
     + unfold s1; cbn. destruct (Z.eqb_spec (mtotal s) 0) as [T|T].
@@ -431,8 +494,8 @@ Proof.
     + apply (i_dl _ _ _ _ C).
   - constructor; unfold s1; cbn.
     + apply (i_child _ Sh).
-    + intros g. unfold upd. destruct (Z.eqb_spec g f) as [->|N]; [cbn|]; apply (i_getf _ Sh).
-    + intros f0 rem E. unfold upd. destruct (Z.eqb_spec f0 f) as [->|N]; [cbn|]; eapply (i_pget _ Sh); eauto.
+    + intros g. unfold upd. destruct (Z.eqb_spec g k) as [->|N]; [cbn|]; apply (i_getf _ Sh).
+    + intros f0 rem E. unfold upd. destruct (Z.eqb_spec f0 k) as [->|N]; [cbn|]; eapply (i_pget _ Sh); eauto.
     + destruct (mtotal s =? 0)%Z; [cbn|]; apply (i_tokpc _ Sh).
 Qed.
 
@@ -468,23 +531,23 @@ Qed.
 
 (* ---- run() resumes ---- *)
 Lemma init_inv c ins outs s s' o :
-  Inv c ins outs s -> mq_act c s SInit = Some (s', o) -> Inv c ins (outs ++ forwards o) s'.
+  wf c -> Inv c ins outs s -> mq_act c s SInit = Some (s', o) -> Inv c ins (outs ++ forwards o) s'.
 Proof.
-  intros [C Sh] H. cbn in H. destruct (mpc s) eqn:P; try discriminate.
+  intros Wf [C Sh] H. cbn in H. destruct (mpc s) eqn:P; try discriminate.
   rewrite (forwards_visits o), app_nil_r by (intros; eapply resume_only_visits; eauto).
-  eapply resume_inv; [exact C| |exact H].
+  eapply resume_inv; [exact Wf|exact C| |exact H].
   apply (mid_of s s Sh); auto; try (rewrite P; discriminate).
   pose proof (i_child _ Sh) as Hc. rewrite P in Hc. exact Hc.
 Qed.
 
 Lemma gettok_inv c ins outs s s' o :
-  Inv c ins outs s -> mq_act c s (SGetDone None) = Some (s', o) -> Inv c ins (outs ++ forwards o) s'.
+  wf c -> Inv c ins outs s -> mq_act c s (SGetDone None) = Some (s', o) -> Inv c ins (outs ++ forwards o) s'.
 Proof.
-  intros [C Sh] H. cbn in H. destruct (mpc s) eqn:P; try discriminate.
+  intros Wf [C Sh] H. cbn in H. destruct (mpc s) eqn:P; try discriminate.
   destruct (sq_take (mtok s)) as [[x q]|] eqn:T; [|discriminate].
   rewrite (forwards_visits o), app_nil_r by (intros; eapply resume_only_visits; eauto).
   apply sq_take_inv in T as (Gx & Ei & Ep & Gq).
-  eapply resume_inv; [| |exact H].
+  eapply resume_inv; [exact Wf| | |exact H].
   - apply core_tok; [assumption| |].
     + intros W. congruence.
     + intros W. congruence.
@@ -505,12 +568,12 @@ Proof.
   injection H as <- <-. cbn [forwards flat_map]. rewrite app_nil_r.
   pose proof (fifo_held_take _ _ _ _ T) as Hh.
   apply sq_take_inv in T as (Gx & Ei & Ep & Gq).
-  assert (Fp : flow p = f).
-  { apply (held_in_ins c ins outs s f p C). unfold held_flow. apply in_or_app. right. rewrite Hh. left. reflexivity. }
+  assert (Fp : cls c (flow p) = f).
+  { apply (held_in_ins c ins outs s f p C). unfold held_class. apply in_or_app. right. rewrite Hh. left. reflexivity. }
   split.
   - apply (core_ext c ins outs s _ C); [| |intros; reflexivity|intros; reflexivity|reflexivity|reflexivity|].
     + cbn. rewrite (i_cur _ _ _ _ C), Ch. reflexivity.
-    + intros g. unfold held_flow, child_pkts. cbn. rewrite Ch. cbn. unfold upd, is_flow. rewrite Fp.
+    + intros g. unfold held_class, child_pkts. cbn. rewrite Ch. cbn. unfold upd, is_class. rewrite Fp.
       destruct (Z.eqb_spec g f) as [->|Ng].
       * rewrite Z.eqb_refl, Hh. reflexivity.
       * destruct (Z.eqb_spec f g); [congruence|]. reflexivity.
@@ -525,19 +588,19 @@ Proof.
 Qed.
 
 Lemma childinit_inv c ins outs s s' o :
-  0 < rate c -> Inv c ins outs s -> mq_act c s SChildInit = Some (s', o) -> Inv c ins (outs ++ forwards o) s'.
+  wf c -> Inv c ins outs s -> mq_act c s SChildInit = Some (s', o) -> Inv c ins (outs ++ forwards o) s'.
 Proof.
   intros R [C Sh] H. cbn in H. destruct (mchild s) as [|p| |] eqn:Ch; try discriminate.
   injection H as <- <-. cbn [forwards flat_map]. rewrite app_nil_r.
   assert (Hp : (0 <= psize p)%Z).
-  { destruct (held_in_ins c ins outs s (flow p) p C) as [_ Hin].
-    - unfold held_flow, child_pkts. rewrite Ch. apply in_or_app. left. cbn. unfold is_flow. rewrite Z.eqb_refl. left. reflexivity.
+  { destruct (held_in_ins c ins outs s (cls c (flow p)) p C) as [_ Hin].
+    - unfold held_class, child_pkts. rewrite Ch. apply in_or_app. left. cbn. unfold is_class. rewrite Z.eqb_refl. left. reflexivity.
     - apply (i_ins _ _ _ _ C p Hin). }
   split.
   - apply (core_ext c ins outs s _ C); [| |intros; reflexivity|intros; reflexivity|reflexivity|reflexivity|].
     + reflexivity.
-    + intros g. unfold held_flow, child_pkts. cbn. rewrite Ch. reflexivity.
-    + intros p0 dl E. cbn in E. injection E as _ <-. cbn. pose proof (tx_time_nonneg c p R Hp). lra.
+    + intros g. unfold held_class, child_pkts. cbn. rewrite Ch. reflexivity.
+    + intros p0 dl E. cbn in E. injection E as _ <-. cbn. pose proof (tx_time_nonneg c p (proj1 R) Hp). lra.
   - constructor; cbn; try apply Sh.
     pose proof (i_child _ Sh) as Hc. rewrite Ch in Hc. destruct (mpc s); try discriminate.
 Qed.
@@ -547,47 +610,56 @@ Lemma childtimer_inv c ins outs s s' o :
 Proof.
   intros [C Sh] H. cbn in H. destruct (mchild s) as [| |p dl|] eqn:Ch; try discriminate.
   destruct (Qeq_bool dl (mnow s)); [|discriminate]. injection H as <- <-. cbn [forwards flat_map app].
-  set (f := flow p).
+  set (f := flow p). set (k := cls c f).
   assert (Hpc : exists rem, mpc s = PChild rem).
   { pose proof (i_child _ Sh) as Hc. rewrite Ch in Hc. destruct (mpc s); try discriminate. eauto. }
   destruct Hpc as (rem & P).
-  assert (Hold : forall g, held_flow s g = (if is_flow g p then [p] else []) ++ map snd (sq_held (mstores s g))).
-  { intros g. unfold held_flow, child_pkts. rewrite Ch. reflexivity. }
-  assert (Hf : In f (flows c)).
-  { destruct (held_in_ins c ins outs s f p C) as [_ Hin].
-    - rewrite Hold. unfold is_flow, f. rewrite Z.eqb_refl. left. reflexivity.
+  assert (Hold : forall g, held_class c s g = (if is_class c g p then [p] else []) ++ map snd (sq_held (mstores s g))).
+  { intros g. unfold held_class, child_pkts. rewrite Ch. reflexivity. }
+  assert (Hf : In k (classes c)).
+  { destruct (held_in_ins c ins outs s k p C) as [_ Hin].
+    - rewrite Hold. unfold is_class, k, f. rewrite Z.eqb_refl. left. reflexivity.
     - apply (i_ins _ _ _ _ C p Hin). }
+  match goal with |- Inv _ _ _ ?x => set (s1 := x) end.
+  assert (Hnew : forall g, held_class c s1 g = map snd (sq_held (mstores s g))).
+  { intros g. unfold held_class, child_pkts, s1. reflexivity. }
+  assert (Hflow : forall g, held_flow c s g = (if is_flow g p then [p] else []) ++ held_flow c s1 g).
+  { intros g. unfold held_flow. rewrite Hold, Hnew, filter_app, filter_flow_one. reflexivity. }
   split.
-  - constructor; cbn.
+  - constructor.
     + reflexivity.
-    + intros g. rewrite filter_app, filter_one, (i_cons _ _ _ _ C g), Hold. unfold held_flow, child_pkts. cbn.
+    + intros g. rewrite filter_app, filter_one, (i_cons _ _ _ _ C g), Hold, Hnew.
       rewrite <- app_assoc. reflexivity.
-    + intros g. unfold held_flow, child_pkts. cbn. unfold upd.
+    + intros g. unfold s1 at 1; cbn [mqc]. unfold upd. pose proof (Hflow g) as E. unfold is_flow in E. fold f in E.
       destruct (Z.eqb_spec g f) as [->|N].
-      * rewrite (i_qc _ _ _ _ C f), Hold. unfold is_flow. fold f. rewrite Z.eqb_refl. cbn [app length]. lia.
-      * rewrite (i_qc _ _ _ _ C g), Hold. unfold is_flow. fold f. destruct (Z.eqb_spec f g); [congruence|]. reflexivity.
-    + intros g. unfold held_flow, child_pkts. cbn. unfold upd.
+      * rewrite Z.eqb_refl in E. rewrite (i_qc _ _ _ _ C f), E. cbn [app length]. lia.
+      * destruct (Z.eqb_spec f g); [congruence|]. rewrite (i_qc _ _ _ _ C g), E. reflexivity.
+    + intros g. unfold s1 at 1; cbn [mqb]. unfold upd. pose proof (Hflow g) as E. unfold is_flow in E. fold f in E.
       destruct (Z.eqb_spec g f) as [->|N].
-      * rewrite (i_qb _ _ _ _ C f), Hold. unfold is_flow. fold f. rewrite Z.eqb_refl. cbn [app sumsz]. lia.
-      * rewrite (i_qb _ _ _ _ C g), Hold. unfold is_flow. fold f. destruct (Z.eqb_spec f g); [congruence|]. reflexivity.
-    + rewrite zsum_upd; [|apply dflows_nodup|apply dflows_in; exact Hf]. rewrite (i_tot _ _ _ _ C). lia.
+      * rewrite Z.eqb_refl in E. rewrite (i_qb _ _ _ _ C f), E. cbn [app sumsz]. lia.
+      * destruct (Z.eqb_spec f g); [congruence|]. rewrite (i_qb _ _ _ _ C g), E. reflexivity.
+    + rewrite (zsum_change (fun j => Z.of_nat (length (held_class c s j))) (fun j => Z.of_nat (length (held_class c s1 j))) k);
+        [|apply dflows_nodup|apply dflows_in; exact Hf|].
+      * rewrite (Hold k), (Hnew k), app_length. unfold is_class. fold f. fold k. rewrite Z.eqb_refl.
+        unfold s1 at 1; cbn [mtotal]. rewrite (i_tot _ _ _ _ C). cbn [length]. lia.
+      * intros j Hj. rewrite (Hold j), (Hnew j). unfold is_class. fold f. fold k. destruct (Z.eqb_spec k j); [congruence|]. reflexivity.
     + apply (i_ins _ _ _ _ C).
     + apply (i_tokns _ _ _ _ C).
-    + intros W. exfalso. assert (E : get (mtok s) = GNone) by (apply (i_tokpc _ Sh); rewrite P; discriminate). congruence.
+    + intros W. exfalso. assert (E : get (mtok s) = GNone) by (apply (i_tokpc _ Sh); rewrite P; discriminate). unfold s1 in W; cbn in W. congruence.
     + discriminate.
-  - constructor; cbn; try apply Sh. rewrite P. discriminate.
+  - constructor; unfold s1; cbn; try apply Sh. rewrite P. discriminate.
 Qed.
 
 Lemma childend_inv c ins outs s s' o :
-  Inv c ins outs s -> mq_act c s SChildEnd = Some (s', o) -> Inv c ins (outs ++ forwards o) s'.
+  wf c -> Inv c ins outs s -> mq_act c s SChildEnd = Some (s', o) -> Inv c ins (outs ++ forwards o) s'.
 Proof.
-  intros [C Sh] H. cbn in H. destruct (mchild s) eqn:Ch; try discriminate.
+  intros Wf [C Sh] H. cbn in H. destruct (mchild s) eqn:Ch; try discriminate.
   destruct (mpc s) as [| |rem| |] eqn:P; try discriminate.
   rewrite (forwards_visits o), app_nil_r by (intros; eapply resume_only_visits; eauto).
-  eapply resume_inv; [| |exact H].
+  eapply resume_inv; [exact Wf| | |exact H].
   - apply (core_ext c ins outs s _ C); [| |intros; reflexivity|intros; reflexivity|reflexivity|reflexivity|].
     + cbn. rewrite (i_cur _ _ _ _ C), Ch. reflexivity.
-    + intros g. unfold held_flow, child_pkts. cbn. rewrite Ch. reflexivity.
+    + intros g. unfold held_class, child_pkts. cbn. rewrite Ch. reflexivity.
     + intros p0 dl E. cbn in E. discriminate.
   - apply (mid_of s _ Sh); try reflexivity; rewrite P; discriminate.
 Qed.
@@ -611,7 +683,7 @@ Proof.
 Qed.
 
 Theorem inv_step c ins outs s a s' o :
-  0 < rate c -> Inv c ins outs s -> mq_act c s a = Some (s', o) -> Inv c (ins ++ puts a) (outs ++ forwards o) s'.
+  wf c -> Inv c ins outs s -> mq_act c s a = Some (s', o) -> Inv c (ins ++ puts a) (outs ++ forwards o) s'.
 Proof.
   intros R I H. destruct a as [p| |[f|]|[f|]| | | |t|incl]; cbn [puts]; rewrite ?app_nil_r.
   - eapply put_inv; eauto.
@@ -667,7 +739,7 @@ Proof.
     split.
     { apply (core_ext c ins outs s _ C); [| |intros; reflexivity|intros; reflexivity|reflexivity|reflexivity|].
       * cbn. rewrite (i_cur _ _ _ _ C), Ch. reflexivity.
-      * intros g. unfold held_flow, child_pkts. cbn. rewrite Ch. reflexivity.
+      * intros g. unfold held_class, child_pkts. cbn. rewrite Ch. reflexivity.
       * intros p0 dl E. cbn in E. discriminate. }
     split.
     { constructor; cbn.
@@ -686,7 +758,7 @@ Proof.
   assert (NV1 : forall (x : sout), (forall f b, x <> OVisit f b) -> forall f b, ~ In (OVisit f b) [x]).
   { intros x Hx f b [E|[]]. eapply Hx; eauto. }
   intros H Ra. destruct a as [p| |[f|]|[f|]| | | |t|incl]; try discriminate; cbn in H.
-  - destruct (memZ (flow p) (flows c) && (0 <=? psize p)%Z); [|discriminate]. injection H as <- <-.
+  - destruct (memZ (cls c (flow p)) (classes c) && (0 <=? psize p)%Z); [|discriminate]. injection H as <- <-.
     split; [reflexivity|split; [intros f b []|auto]].
   - destruct (sq_cb fifo_pop (mstores s f)); [|discriminate]. injection H as <- <-.
     split; [reflexivity|split; [intros f0 b []|auto]].
@@ -717,7 +789,7 @@ Definition tr_fwds (tr : list tev) : list pkt := flat_map (fun e => forwards (sn
 Definition reachable (c : mq_cfg) (s : mq) : Prop := exists acts tr, mq_run c (mq0 c) acts = Some (s, tr).
 
 (* every allowance positive (SP: all priorities > 0; WRR: all weights > 0), rate positive *)
-Definition cfg_ok (c : mq_cfg) : Prop := 0 < rate c /\ forall f n, In (f, n) (pass c) -> (0 < n)%nat.
+Definition cfg_ok (c : mq_cfg) : Prop := wf c /\ forall f n, In (f, n) (pass c) -> (0 < n)%nat.
 
 Lemma inv0 c : Inv c [] [] (mq0 c).
 Proof.
@@ -727,7 +799,7 @@ Proof.
     + intros f. reflexivity.
     + intros f. reflexivity.
     + intros f. reflexivity.
-    + cbn. induction (dflows c) as [|x l IH]; cbn; [reflexivity|exact IH].
+    + cbn. induction (dclasses c) as [|x l IH]; cbn; [reflexivity|exact IH].
     + intros p [].
     + apply sq_nostrand_init.
     + intros H. discriminate.
@@ -739,7 +811,7 @@ Proof.
     + split; [discriminate|reflexivity].
 Qed.
 
-Lemma inv_run c : 0 < rate c -> forall acts s ins outs s' tr,
+Lemma inv_run c : wf c -> forall acts s ins outs s' tr,
   Inv c ins outs s -> mq_run c s acts = Some (s', tr) -> Inv c (ins ++ tr_puts tr) (outs ++ tr_fwds tr) s'.
 Proof.
   intros R. induction acts as [|a rest IH]; intros s ins outs s' tr I H; cbn in H.
@@ -750,7 +822,7 @@ Proof.
     apply (IH s1); [|exact Rn]. eapply inv_step; eauto.
 Qed.
 
-Lemma reachable_inv c s : 0 < rate c -> reachable c s -> exists ins outs, Inv c ins outs s.
+Lemma reachable_inv c s : wf c -> reachable c s -> exists ins outs, Inv c ins outs s.
 Proof.
   intros R (acts & tr & H). exists (tr_puts tr), (tr_fwds tr).
   apply (inv_run c R acts (mq0 c) [] [] s tr (inv0 c) H).
@@ -810,14 +882,14 @@ Proof.
     + destruct (scan (nonempty c s) (pass c)) as [vs2 [[f rem']|]] eqn:Sc2.
       * unfold commit in E. destruct (sq_get fifo_pop (mstores s f)); [|discriminate]. injection E as <- <-. discriminate.
       * exfalso. pose proof (total_nonneg _ _ _ _ C) as T0.
-        destruct (zsum_pos (mqc s) (dflows c)) as (f & Hf & Pf).
-        { intros g _. eapply qc_nonneg; eauto. }
+        destruct (zsum_pos (fun k => Z.of_nat (length (held_class c s k))) (dclasses c)) as (f & Hf & Pf).
+        { intros g _. lia. }
         { rewrite <- (i_tot _ _ _ _ C). lia. }
-        apply dflows_in in Hf. unfold flows in Hf. apply in_map_iff in Hf as ([f' n] & E1 & Hin). cbn in E1. subst f'.
+        apply dflows_in in Hf. unfold classes in Hf. apply in_map_iff in Hf as ([f' n] & E1 & Hin). cbn in E1. subst f'.
         destruct (scan_none _ _ _ Sc2 f n Hin) as [N0|Tf].
         -- specialize (Pos f n Hin). lia.
-        -- rewrite (nonempty_spec c ins outs s f C M) in Tf.
-           rewrite (i_qc _ _ _ _ C f), (mid_held s f M), map_length in Pf.
+        -- rewrite (nonempty_spec c ins outs s f R C M) in Tf.
+           rewrite (mid_held c s f M), map_length in Pf.
            destruct (items (mstores s f)); [cbn in Pf; lia|discriminate].
 Qed.
 
@@ -837,18 +909,18 @@ Qed.
 
 Lemma quiet_transmitting_or_empty c ins outs s :
   Inv c ins outs s -> mpc s <> PSpin -> urgent c s = false ->
-  (exists p dl, mchild s = CTx p dl /\ mcur s = Some p /\ mnow s < dl) \/ (forall f, held_flow s f = []).
+  (exists p dl, mchild s = CTx p dl /\ mcur s = Some p /\ mnow s < dl) \/ (forall f, held_class c s f = []).
 Proof.
   intros [C Sh] NS U. unfold urgent in U.
   apply orb_false_iff in U as [U Uch]. apply orb_false_iff in U as [U Ust]. apply orb_false_iff in U as [Upc Utok].
   destruct (mpc s) as [|f rem|rem| |] eqn:P; try discriminate.
   - (* PGet: the granted get is due now *)
     exfalso. destruct (i_pget _ Sh f rem P) as (x & Gx).
-    assert (Hf : In f (flows c)).
+    assert (Hf : In f (classes c)).
     { destruct (held_in_ins c ins outs s f (snd x) C) as [Fx Hin].
-      - unfold held_flow. apply in_or_app. right. unfold sq_held. rewrite Gx. left. reflexivity.
+      - unfold held_class. apply in_or_app. right. unfold sq_held. rewrite Gx. left. reflexivity.
       - rewrite <- Fx. apply (i_ins _ _ _ _ C _ Hin). }
-    assert (E : existsb (fun f0 => sq_urgent (mstores s f0)) (flows c) = true).
+    assert (E : existsb (fun f0 => sq_urgent (mstores s f0)) (classes c) = true).
     { apply existsb_exists. exists f. split; [exact Hf|]. unfold sq_urgent. rewrite Gx. apply orb_true_r. }
     congruence.
   - (* PChild *)
@@ -870,11 +942,11 @@ Proof.
         pose proof (i_tokns _ _ _ _ C G Hi). lia.
       - apply (Ng x). reflexivity. }
     intros f.
-    destruct (in_dec Z.eq_dec f (flows c)) as [Hf|Hf].
-    + assert (Q0 : mqc s f = 0%Z).
-      { apply (zsum_zero (mqc s) (dflows c)); [intros g _; eapply qc_nonneg; eauto|rewrite <- (i_tot _ _ _ _ C); exact T0|apply dflows_in; exact Hf]. }
-      rewrite (i_qc _ _ _ _ C f) in Q0. destruct (held_flow s f); [reflexivity|cbn in Q0; lia].
-    + destruct (held_flow s f) as [|p l] eqn:Hh; [reflexivity|]. exfalso. apply Hf.
+    destruct (in_dec Z.eq_dec f (classes c)) as [Hf|Hf].
+    + assert (Q0 : Z.of_nat (length (held_class c s f)) = 0%Z).
+      { apply (zsum_zero (fun k => Z.of_nat (length (held_class c s k))) (dclasses c)); [intros g _; lia|rewrite <- (i_tot _ _ _ _ C); exact T0|apply dflows_in; exact Hf]. }
+      destruct (held_class c s f); [reflexivity|cbn in Q0; lia].
+    + destruct (held_class c s f) as [|p l] eqn:Hh; [reflexivity|]. exfalso. apply Hf.
       destruct (held_in_ins c ins outs s f p C) as [Fp Hin]; [rewrite Hh; left; reflexivity|].
       rewrite <- Fp. apply (i_ins _ _ _ _ C _ Hin).
   - contradiction.
@@ -882,7 +954,7 @@ Qed.
 
 Theorem work_conserving c s t r :
   cfg_ok c -> reachable c s -> mq_act c s (SAdvance t) = Some r ->
-  (exists p dl, mchild s = CTx p dl /\ mcur s = Some p /\ mnow s < dl) \/ (forall f, held_flow s f = []).
+  (exists p dl, mchild s = CTx p dl /\ mcur s = Some p /\ mnow s < dl) \/ (forall f, held_class c s f = []).
 Proof.
   intros Ok Rs A. destruct (reachable_inv c s (proj1 Ok) Rs) as (ins & outs & I).
   apply (quiet_transmitting_or_empty c ins outs s I (never_spins c s Ok Rs)).
@@ -892,13 +964,13 @@ Qed.
 (* a state in which nothing of the scheduler is enabled and no deadline is pending holds nothing *)
 Theorem drained c s :
   cfg_ok c -> reachable c s -> urgent c s = false -> (forall p dl, mchild s <> CTx p dl) ->
-  (forall f, held_flow s f = []) /\ (forall f, mqc s f = 0%Z /\ mqb s f = 0%Z) /\ mcur s = None.
+  (forall f, held_class c s f = []) /\ (forall f, mqc s f = 0%Z /\ mqb s f = 0%Z) /\ mcur s = None.
 Proof.
   intros Ok Rs U Nd. destruct (reachable_inv c s (proj1 Ok) Rs) as (ins & outs & I).
   destruct (quiet_transmitting_or_empty c ins outs s I (never_spins c s Ok Rs) U) as [(p & dl & E & _)|He].
   - exfalso. eapply Nd; eauto.
   - destruct I as [C Sh]. split; [exact He|]. split.
-    + intros f. rewrite (i_qc _ _ _ _ C f), (i_qb _ _ _ _ C f), He. split; reflexivity.
+    + intros f. rewrite (i_qc _ _ _ _ C f), (i_qb _ _ _ _ C f). unfold held_flow. rewrite He. split; reflexivity.
     + rewrite (i_cur _ _ _ _ C). destruct (mchild s) eqn:Ch; try reflexivity. exfalso. eapply Nd; eauto.
 Qed.
 
@@ -943,7 +1015,7 @@ Proof.
 Qed.
 
 Lemma tx_step c ins outs s a s' o :
-  0 < rate c -> Inv c ins outs s -> mq_act c s a = Some (s', o) ->
+  wf c -> Inv c ins outs s -> mq_act c s a = Some (s', o) ->
   (exists p, starts o = [p] /\ forwards o = [] /\ child_tx s = None /\ child_tx s' = Some (p, mnow s' + tx_time c p))
   \/ (exists p dl, starts o = [] /\ forwards o = [p] /\ child_tx s = Some (p, dl) /\ dl == mnow s' /\ child_tx s' = None)
   \/ (starts o = [] /\ forwards o = [] /\ child_tx s' = child_tx s /\
@@ -966,7 +1038,7 @@ Proof.
     split; [apply forwards_visits; intros; eapply resume_only_visits; eauto|].
     split; [congruence|]. rewrite Ech0. exact Logic.I.
   - destruct a as [p| |[f|]|[f|]| | | |t|incl]; try discriminate; cbn in H.
-    + destruct (memZ (flow p) (flows c) && (0 <=? psize p)%Z); [|discriminate]. injection H as <- <-.
+    + destruct (memZ (cls c (flow p)) (classes c) && (0 <=? psize p)%Z); [|discriminate]. injection H as <- <-.
       right. right. split; [reflexivity|split; [reflexivity|]]. split; [reflexivity|]. apply Hb. reflexivity.
     + destruct (sq_cb fifo_pop (mstores s f)); [|discriminate]. injection H as <- <-.
       right. right. split; [reflexivity|split; [reflexivity|]]. split; [reflexivity|]. apply Hb. reflexivity.
@@ -988,7 +1060,7 @@ Proof.
     + injection H as <- <-. right. right. split; [reflexivity|split; [reflexivity|]]. split; [reflexivity|]. apply Hb. reflexivity.
 Qed.
 
-Theorem tx_wf_run c : 0 < rate c -> forall acts s ins outs s' tr,
+Theorem tx_wf_run c : wf c -> forall acts s ins outs s' tr,
   Inv c ins outs s -> mq_run c s acts = Some (s', tr) -> tx_wf c (child_tx s) tr.
 Proof.
   intros R. induction acts as [|a rest IH]; intros s ins outs s' tr I H; cbn in H.
@@ -1008,12 +1080,15 @@ Qed.
 (* conservation, per-flow FIFO, counters: statements on executions from the initial state *)
 
 Theorem run_conserves c acts s tr :
-  0 < rate c -> mq_run c (mq0 c) acts = Some (s, tr) ->
-  (forall f, filter (is_flow f) (tr_puts tr) = filter (is_flow f) (tr_fwds tr) ++ held_flow s f)
-  /\ (forall p, In p (tr_puts tr) -> In (flow p) (flows c)).
+  wf c -> mq_run c (mq0 c) acts = Some (s, tr) ->
+  (forall k, filter (is_class c k) (tr_puts tr) = filter (is_class c k) (tr_fwds tr) ++ held_class c s k)
+  /\ (forall f, filter (is_flow f) (tr_puts tr) = filter (is_flow f) (tr_fwds tr) ++ held_flow c s f)
+  /\ (forall p, In p (tr_puts tr) -> In (cls c (flow p)) (classes c)).
 Proof.
-  intros R H. destruct (inv_run c R acts (mq0 c) [] [] s tr (inv0 c) H) as [C _]. cbn in C. split.
+  intros R H. destruct (inv_run c R acts (mq0 c) [] [] s tr (inv0 c) H) as [C _]. cbn in C. split; [|split].
   - apply (i_cons _ _ _ _ C).
+  - intros f. rewrite <- (filter_flow_class c f (tr_puts tr)), (i_cons _ _ _ _ C (cls c f)), filter_app, filter_flow_class.
+    reflexivity.
   - intros p Hp. apply (i_ins _ _ _ _ C p Hp).
 Qed.
 
@@ -1036,7 +1111,7 @@ Proof.
             * destruct (sq_get fifo_pop (mstores x f)); [|discriminate]. intros E; injection E as <- <-. reflexivity.
             * intros E; injection E as <- <-. reflexivity. }
       destruct a as [p| |[f|]|[f|]| | | |t|incl]; cbn in A; cbn [puts length].
-      - destruct (memZ (flow p) (flows c) && (0 <=? psize p)%Z); [|discriminate]. injection A as <- <-. cbn. lia.
+      - destruct (memZ (cls c (flow p)) (classes c) && (0 <=? psize p)%Z); [|discriminate]. injection A as <- <-. cbn. lia.
       - destruct (mpc s0); try discriminate. rewrite (Rr _ _ _ _ A). lia.
       - destruct (sq_cb fifo_pop (mstores s0 f)); [|discriminate]. injection A as <- <-. cbn. lia.
       - destruct (sq_cb fifo_pop (mtok s0)); [|discriminate]. injection A as <- <-. cbn. lia.
@@ -1055,34 +1130,34 @@ Proof.
 Qed.
 
 Theorem run_counters c acts s tr :
-  0 < rate c -> mq_run c (mq0 c) acts = Some (s, tr) ->
-  (forall f, mqc s f = Z.of_nat (length (held_flow s f)) /\ mqb s f = sumsz (held_flow s f))
-  /\ mtotal s = zsum (fun f => Z.of_nat (length (held_flow s f))) (dflows c)
+  wf c -> mq_run c (mq0 c) acts = Some (s, tr) ->
+  (forall f, mqc s f = Z.of_nat (length (held_flow c s f)) /\ mqb s f = sumsz (held_flow c s f))
+  /\ mtotal s = zsum (fun k => Z.of_nat (length (held_class c s k))) (dclasses c)
   /\ mcur s = match mchild s with CTx p _ => Some p | _ => None end
   /\ mrecv s = Z.of_nat (length (tr_puts tr)).
 Proof.
   intros R H. destruct (inv_run c R acts (mq0 c) [] [] s tr (inv0 c) H) as [C _]. cbn in C.
   split; [intros f; split; [apply (i_qc _ _ _ _ C)|apply (i_qb _ _ _ _ C)]|].
-  split; [rewrite (i_tot _ _ _ _ C); apply zsum_ext; intros f; apply (i_qc _ _ _ _ C)|].
+  split; [apply (i_tot _ _ _ _ C)|].
   split; [apply (i_cur _ _ _ _ C)|].
   rewrite (recv_run c _ _ _ _ H). cbn. lia.
 Qed.
 
 (* ---------------------------------------------------------------------------------------------- *)
-(* between the moment run() takes a packet of flow f out of its queue and the start of the transmission timer *)
-Definition committed (s : mq) (f : Z) : Prop :=
-  (exists rem, mpc s = PGet f rem) \/ (exists p, mchild s = CInit p /\ flow p = f).
+(* between the moment run() takes a packet of class k out of its queue and the start of the transmission timer *)
+Definition committed (c : mq_cfg) (s : mq) (k : Z) : Prop :=
+  (exists rem, mpc s = PGet k rem) \/ (exists p, mchild s = CInit p /\ cls c (flow p) = k).
 
-Lemma committed_urgent c s f : 0 < rate c -> reachable c s -> committed s f -> urgent c s = true.
+Lemma committed_urgent c s f : wf c -> reachable c s -> committed c s f -> urgent c s = true.
 Proof.
   intros R Rs Cm. destruct (reachable_inv c s R Rs) as (ins & outs & [C Sh]).
   unfold urgent. destruct Cm as [(rem & P)|(p & Ch & _)].
   - destruct (i_pget _ Sh f rem P) as (x & Gx).
-    assert (Hf : In f (flows c)).
+    assert (Hf : In f (classes c)).
     { destruct (held_in_ins c ins outs s f (snd x) C) as [Fx Hin].
-      - unfold held_flow. apply in_or_app. right. unfold sq_held. rewrite Gx. left. reflexivity.
+      - unfold held_class. apply in_or_app. right. unfold sq_held. rewrite Gx. left. reflexivity.
       - rewrite <- Fx. apply (i_ins _ _ _ _ C _ Hin). }
-    assert (Ex : existsb (fun f0 => sq_urgent (mstores s f0)) (flows c) = true).
+    assert (Ex : existsb (fun f0 => sq_urgent (mstores s f0)) (classes c) = true).
     { apply existsb_exists. exists f. split; [exact Hf|]. unfold sq_urgent. rewrite Gx. apply orb_true_r. }
     rewrite Ex. rewrite orb_true_r. reflexivity.
   - unfold child_urgent. rewrite Ch. apply orb_true_r.
@@ -1093,52 +1168,54 @@ Qed.
 (* per-flow FIFO, exactly once *)
 
 Theorem run_flow_fifo c acts s tr f :
-  0 < rate c -> mq_run c (mq0 c) acts = Some (s, tr) ->
+  wf c -> mq_run c (mq0 c) acts = Some (s, tr) ->
   exists rest, filter (is_flow f) (tr_puts tr) = filter (is_flow f) (tr_fwds tr) ++ rest.
-Proof. intros R H. exists (held_flow s f). apply (run_conserves c acts s tr R H). Qed.
+Proof. intros R H. exists (held_flow c s f). apply (run_conserves c acts s tr R H). Qed.
 
 Lemma Q_eq_dec (a b : Q) : {a = b} + {a <> b}.
 Proof. decide equality; [apply Pos.eq_dec|apply Z.eq_dec]. Qed.
 Lemma pkt_eq_dec (a b : pkt) : {a = b} + {a <> b}.
 Proof. decide equality; auto using Q_eq_dec, Z.eq_dec, Nat.eq_dec. Qed.
 
-Lemma count_filter_flow p l :
-  count_occ pkt_eq_dec (filter (is_flow (flow p)) l) p = count_occ pkt_eq_dec l p.
+Lemma count_filter_class c p l :
+  count_occ pkt_eq_dec (filter (is_class c (cls c (flow p))) l) p = count_occ pkt_eq_dec l p.
 Proof.
   induction l as [|x t IH]; cbn; [reflexivity|].
   destruct (pkt_eq_dec x p) as [->|N].
-  - unfold is_flow at 1. rewrite Z.eqb_refl. cbn. destruct (pkt_eq_dec p p); [|contradiction]. rewrite IH. reflexivity.
-  - destruct (is_flow (flow p) x); [cbn; destruct (pkt_eq_dec x p); [contradiction|]|]; exact IH.
+  - unfold is_class at 1. rewrite Z.eqb_refl. cbn. destruct (pkt_eq_dec p p); [|contradiction]. rewrite IH. reflexivity.
+  - destruct (is_class c (cls c (flow p)) x); [cbn; destruct (pkt_eq_dec x p); [contradiction|]|]; exact IH.
 Qed.
 
-(* every packet handed in is accounted for exactly once: forwarded or held (in the queue of its own flow) *)
+(* every packet handed in is accounted for exactly once: forwarded or held (in the queue of its class) *)
 Theorem run_exactly_once c acts s tr p :
-  0 < rate c -> mq_run c (mq0 c) acts = Some (s, tr) ->
+  wf c -> mq_run c (mq0 c) acts = Some (s, tr) ->
   count_occ pkt_eq_dec (tr_puts tr) p
-  = (count_occ pkt_eq_dec (tr_fwds tr) p + count_occ pkt_eq_dec (held_flow s (flow p)) p)%nat.
+  = (count_occ pkt_eq_dec (tr_fwds tr) p + count_occ pkt_eq_dec (held_class c s (cls c (flow p))) p)%nat.
 Proof.
   intros R H. destruct (run_conserves c acts s tr R H) as [Hc _].
-  rewrite <- (count_filter_flow p (tr_puts tr)), <- (count_filter_flow p (tr_fwds tr)), (Hc (flow p)), count_occ_app.
+  rewrite <- (count_filter_class c p (tr_puts tr)), <- (count_filter_class c p (tr_fwds tr)), (Hc (cls c (flow p))), count_occ_app.
   reflexivity.
 Qed.
 
 (* ---------------------------------------------------------------------------------------------- *)
 (* what the Monitor samples *)
 
-(* packets of f held but not (yet) in transmission *)
-Definition waiting_flow (s : mq) (f : Z) : list pkt :=
-  filter (is_flow f) (match mchild s with CInit p => [p] | _ => [] end) ++ map snd (sq_held (mstores s f)).
+(* packets of flow f held but not (yet) in transmission *)
+Definition waiting_flow (c : mq_cfg) (s : mq) (f : Z) : list pkt :=
+  filter (is_flow f) (filter (is_class c (cls c f)) (match mchild s with CInit p => [p] | _ => [] end)
+                      ++ map snd (sq_held (mstores s (cls c f)))).
 
 Theorem monitor_samples c s incl f :
-  0 < rate c -> reachable c s ->
+  wf c -> reachable c s ->
   sample_of s incl f =
-    let l := if incl then held_flow s f else waiting_flow s f in (f, Z.of_nat (length l), sumsz l).
+    let l := if incl then held_flow c s f else waiting_flow c s f in (f, Z.of_nat (length l), sumsz l).
 Proof.
   intros R Rs. destruct (reachable_inv c s R Rs) as (ins & outs & [C Sh]).
   unfold sample_of. rewrite (i_cur _ _ _ _ C), (i_qc _ _ _ _ C f), (i_qb _ _ _ _ C f).
-  unfold held_flow, waiting_flow, child_pkts.
+  unfold held_flow, held_class, waiting_flow, child_pkts.
   destruct (mchild s) as [|p|p dl|]; destruct incl; cbn [negb andb]; try reflexivity.
-  unfold is_flow. cbn [filter]. destruct (flow p =? f)%Z; [|reflexivity].
+  rewrite !filter_app, filter_one, filter_flow_one. cbn [filter app].
+  change (flow p =? f)%Z with (is_flow f p). destruct (is_flow f p); [|reflexivity].
   cbn [app length sumsz]. f_equal; [f_equal|]; lia.
 Qed.
 
@@ -1271,7 +1348,7 @@ Proof.
   exfalso. apply (H f served). left. reflexivity.
 Qed.
 
-Theorem visits_run c : 0 < rate c -> brk c = false -> forall acts s ins outs s' tr k,
+Theorem visits_run c : wf c -> brk c = false -> forall acts s ins outs s' tr k,
   Inv c ins outs s -> mq_run c s acts = Some (s', tr) -> norm (pass c) k = norm (pass c) (cursor c s) ->
   exists k', walk (pass c) k (tr_visits tr) = Some k' /\ norm (pass c) k' = norm (pass c) (cursor c s').
 Proof.
@@ -1295,11 +1372,11 @@ Qed.
 (* what a visit means for the queues: a class is skipped only when it holds nothing, a class that is served gives
    the head of its queue *)
 Lemma resume_visit c ins outs s rem s' o f b :
-  Core c ins outs s -> Mid s -> resume c s rem = Some (s', o) -> In (OVisit f b) o ->
+  wf c -> Core c ins outs s -> Mid s -> resume c s rem = Some (s', o) -> In (OVisit f b) o ->
   if b then exists x rest, items (mstores s f) = x :: rest /\ get (mstores s' f) = GGranted x /\ items (mstores s' f) = rest
-  else items (mstores s f) = [] /\ held_flow s f = [].
+  else items (mstores s f) = [] /\ held_class c s f = [].
 Proof.
-  intros C M H Hin.
+  intros Wf C M H Hin.
   assert (Tst : forall g, nonempty c s g = negb (nilb (items (mstores s g)))) by (intros; eapply nonempty_spec; eauto).
   assert (Cm : forall g rem1 s1, nonempty c s g = true -> commit s g rem1 = Some s1 ->
              exists x rest, items (mstores s g) = x :: rest /\ get (mstores s1 g) = GGranted x /\ items (mstores s1 g) = rest).
@@ -1307,16 +1384,16 @@ Proof.
     destruct (sq_get fifo_pop (mstores s g)) as [q|] eqn:G; [|discriminate]. injection E as <-.
     apply fifo_get_inv in G as (_ & _ & [(E0 & _)|(x & E1 & Gx)]); [rewrite E0 in T; discriminate|].
     exists x, (items q). cbn. rewrite upd_same. auto. }
-  assert (Sk : forall g, nonempty c s g = false -> items (mstores s g) = [] /\ held_flow s g = []).
+  assert (Sk : forall g, nonempty c s g = false -> items (mstores s g) = [] /\ held_class c s g = []).
   { intros g T. rewrite Tst in T. assert (E : items (mstores s g) = []) by (destruct (items (mstores s g)); [reflexivity|discriminate]).
-    split; [exact E|]. rewrite (mid_held s g M), E. reflexivity. }
+    split; [exact E|]. rewrite (mid_held c s g M), E. reflexivity. }
   assert (One : forall rem1 vs r, scan (nonempty c s) rem1 = (vs, r) -> In (OVisit f b) vs ->
              if b then exists rem', r = Some (f, rem') else nonempty c s f = false).
   { intros rem1 vs r Sc Hv. destruct b; [eapply scan_visit_true; eauto|eapply scan_visit_false; eauto]. }
   unfold resume in H. destruct (scan (nonempty c s) rem) as [vs0 r0] eqn:Sc.
   assert (EP : forall s1 vs1, end_pass c s = Some (s1, vs1) -> In (OVisit f b) vs1 ->
      if b then exists x rest, items (mstores s f) = x :: rest /\ get (mstores s1 f) = GGranted x /\ items (mstores s1 f) = rest
-     else items (mstores s f) = [] /\ held_flow s f = []).
+     else items (mstores s f) = [] /\ held_class c s f = []).
   { intros s1 vs1 E Hv. unfold end_pass in E. destruct (mtotal s =? 0)%Z.
     - destruct (sq_get fifo_pop (mtok s)); [|discriminate]. injection E as <- <-. destruct Hv.
     - destruct (scan (nonempty c s) (pass c)) as [vs2 r2] eqn:Sc2. pose proof (One _ _ _ Sc2) as O2.
@@ -1337,17 +1414,17 @@ Proof.
 Qed.
 
 Theorem visit_meaning c s a s' o f b :
-  0 < rate c -> reachable c s -> mq_act c s a = Some (s', o) -> In (OVisit f b) o ->
+  wf c -> reachable c s -> mq_act c s a = Some (s', o) -> In (OVisit f b) o ->
   if b then exists x rest, items (mstores s f) = x :: rest /\ get (mstores s' f) = GGranted x /\ items (mstores s' f) = rest
-  else items (mstores s f) = [] /\ held_flow s f = [].
+  else items (mstores s f) = [] /\ held_class c s f = [].
 Proof.
   intros R Rs A Hin. destruct (reachable_inv c s R Rs) as (ins & outs & Iv).
   destruct (runs_loop a) eqn:Ra; [|exfalso; eapply (other_site c s a s' o A Ra); exact Hin].
   destruct (resume_site c ins outs s a s' o Iv A Ra) as (s0 & C0 & M0 & Rsm & Est & _).
-  pose proof (resume_visit c ins outs s0 _ s' o f b C0 M0 Rsm Hin) as V. rewrite Est in V.
+  pose proof (resume_visit c ins outs s0 _ s' o f b R C0 M0 Rsm Hin) as V. rewrite Est in V.
   destruct b; [exact V|]. destruct V as [V1 V2]. split; [exact V1|].
   (* held_flow of s: the child of s has ended or does not exist, its stores are those of s0 *)
-  destruct Iv as [C Sh]. rewrite <- V2. unfold held_flow. rewrite Est. f_equal.
+  destruct Iv as [C Sh]. rewrite <- V2. unfold held_class. rewrite Est. f_equal.
   unfold child_pkts. rewrite (m_child _ M0).
   destruct a as [p| |[g|]|[g|]| | | |t|incl]; try discriminate; cbn in A.
   - destruct (mpc s) eqn:P; try discriminate. pose proof (i_child _ Sh) as Hc. rewrite P in Hc. rewrite Hc. reflexivity.
@@ -1374,7 +1451,7 @@ Qed.
 Lemma act_now c s a s' o : mq_act c s a = Some (s', o) -> (forall t, a <> SAdvance t) -> mnow s' = mnow s.
 Proof.
   intros A NA. destruct a as [p| |[f|]|[f|]| | | |t|incl]; cbn in A.
-  - destruct (memZ (flow p) (flows c) && (0 <=? psize p)%Z); [|discriminate]. injection A as <- <-. reflexivity.
+  - destruct (memZ (cls c (flow p)) (classes c) && (0 <=? psize p)%Z); [|discriminate]. injection A as <- <-. reflexivity.
   - destruct (mpc s); try discriminate. eapply resume_now; eauto.
   - destruct (sq_cb fifo_pop (mstores s f)); [|discriminate]. injection A as <- <-. reflexivity.
   - destruct (sq_cb fifo_pop (mtok s)); [|discriminate]. injection A as <- <-. reflexivity.
@@ -1402,7 +1479,7 @@ Proof.
     split; [congruence|]. intros e [<-|Hin]; [exact N1|]. rewrite (Ht e Hin). exact N1.
 Qed.
 
-Lemma no_start_no_tx c : 0 < rate c -> forall acts s ins outs s' tr,
+Lemma no_start_no_tx c : wf c -> forall acts s ins outs s' tr,
   Inv c ins outs s -> mq_run c s acts = Some (s', tr) -> child_tx s = None ->
   (forall e, In e tr -> starts (snd e) = []) -> child_tx s' = None /\ tr_fwds tr = [].
 Proof.
@@ -1422,7 +1499,7 @@ Theorem back_to_back c acts1 s1 tr1 s2 o acts2 s3 tr2 t r :
   cfg_ok c ->
   mq_run c (mq0 c) acts1 = Some (s1, tr1) ->
   mq_act c s1 SChildTimer = Some (s2, o) ->
-  (exists f, held_flow s2 f <> []) ->
+  (exists f, held_class c s2 f <> []) ->
   mq_run c s2 acts2 = Some (s3, tr2) -> (forall t', ~ In (SAdvance t') acts2) ->
   mq_act c s3 (SAdvance t) = Some r ->
   exists e p, In e tr2 /\ In (OStart p) (snd e) /\ fst (fst e) = mnow s2.
@@ -1456,7 +1533,7 @@ Proof.
     rewrite F3, app_nil_r, filter_app, E2, <- app_assoc in E3. apply app_inv_head in E3.
     destruct (work_conserving c s3 t r Ok Rs3 A3) as [(p & dl & Ch & _)|He].
     + unfold child_tx in C3. rewrite Ch in C3. discriminate.
-    + rewrite (He f) in E3. destruct (held_flow s2 f); [apply Hf; reflexivity|discriminate].
+    + rewrite (He f) in E3. destruct (held_class c s2 f); [apply Hf; reflexivity|discriminate].
 Qed.
 
 
@@ -1465,13 +1542,14 @@ Qed.
 
 Definition tr_starts (tr : list tev) : list pkt := flat_map (fun e => starts (snd e)) tr.
 Definition served (vs : list (Z * bool)) : list Z := map fst (filter snd vs).
-(* the flow run() has committed to and whose transmission has not started yet *)
-Definition pending (s : mq) : list Z :=
+(* the class run() has committed to and whose transmission has not started yet *)
+Definition pending (c : mq_cfg) (s : mq) : list Z :=
   match mpc s, mchild s with
   | PGet f _, _ => [f]
-  | _, CInit p => [flow p]
+  | _, CInit p => [cls c (flow p)]
   | _, _ => []
   end.
+Definition pclass (c : mq_cfg) (p : pkt) : Z := cls c (flow p).
 
 Lemma scan_served test rem vs r :
   scan test rem = (vs, r) -> served (visits_of vs) = match r with Some (f, _) => [f] | None => [] end.
@@ -1487,10 +1565,10 @@ Lemma served_app a b : served (a ++ b) = served a ++ served b.
 Proof. unfold served. rewrite filter_app, map_app. reflexivity. Qed.
 
 Lemma resume_served c s rem s' o :
-  mchild s = CNone -> resume c s rem = Some (s', o) -> served (visits_of o) = pending s'.
+  mchild s = CNone -> resume c s rem = Some (s', o) -> served (visits_of o) = pending c s'.
 Proof.
   intros Ch H. unfold resume in H.
-  assert (EP : forall s1 vs1, end_pass c s = Some (s1, vs1) -> served (visits_of vs1) = pending s1).
+  assert (EP : forall s1 vs1, end_pass c s = Some (s1, vs1) -> served (visits_of vs1) = pending c s1).
   { intros s1 vs1 E. unfold end_pass in E. destruct (mtotal s =? 0)%Z.
     - destruct (sq_get fifo_pop (mtok s)); [|discriminate]. injection E as <- <-. unfold pending; cbn. rewrite Ch. reflexivity.
     - destruct (scan (nonempty c s) (pass c)) as [vs2 r2] eqn:Sc. pose proof (scan_served _ _ _ _ Sc) as Sv.
@@ -1506,14 +1584,14 @@ Qed.
 
 Lemma starts_step c ins outs s a s' o :
   Inv c ins outs s -> mq_act c s a = Some (s', o) ->
-  pending s ++ served (visits_of o) = map flow (starts o) ++ pending s'.
+  pending c s ++ served (visits_of o) = map (pclass c) (starts o) ++ pending c s'.
 Proof.
   intros Iv A. pose proof Iv as [C Sh]. pose proof (i_child _ Sh) as Hc.
   destruct (runs_loop a) eqn:Ra.
   - destruct (resume_site c ins outs s a s' o Iv A Ra) as (s0 & C0 & M0 & Rsm & _ & _ & _ & _ & Ng).
     rewrite (resume_served c s0 _ s' o (m_child _ M0) Rsm).
     rewrite (starts_visits o) by (intros; eapply resume_only_visits; eauto). cbn [map app].
-    assert (Ep : pending s = []).
+    assert (Ep : pending c s = []).
     { unfold pending. destruct a as [p| |[f|]|[f|]| | | |t|incl]; try discriminate; cbn in A.
       - destruct (mpc s); try discriminate. rewrite Hc. reflexivity.
       - destruct (mpc s); try discriminate. rewrite Hc. reflexivity.
@@ -1521,15 +1599,15 @@ Proof.
     rewrite Ep. reflexivity.
   - destruct (other_site c s a s' o A Ra) as (_ & Nv & _). rewrite (visits_none o Nv). cbn [served filter map]. rewrite app_nil_r.
     destruct a as [p| |[f|]|[f|]| | | |t|incl]; try discriminate; cbn in A.
-    + destruct (memZ (flow p) (flows c) && (0 <=? psize p)%Z); [|discriminate]. injection A as <- <-. reflexivity.
+    + destruct (memZ (cls c (flow p)) (classes c) && (0 <=? psize p)%Z); [|discriminate]. injection A as <- <-. reflexivity.
     + destruct (sq_cb fifo_pop (mstores s f)); [|discriminate]. injection A as <- <-. reflexivity.
     + destruct (sq_cb fifo_pop (mtok s)); [|discriminate]. injection A as <- <-. reflexivity.
     + destruct (mpc s) as [|g rem|rem| |] eqn:P; try discriminate. destruct (mchild s) eqn:Ch; try discriminate.
       destruct (Z.eqb_spec f g) as [<-|N]; [|discriminate].
       destruct (sq_take (mstores s f)) as [[[a p] q]|] eqn:T; [|discriminate]. injection A as <- <-.
       pose proof (fifo_held_take _ _ _ _ T) as Hh.
-      assert (Fp : flow p = f).
-      { apply (held_in_ins c ins outs s f p C). unfold held_flow. apply in_or_app. right. rewrite Hh. left. reflexivity. }
+      assert (Fp : cls c (flow p) = f).
+      { apply (held_in_ins c ins outs s f p C). unfold held_class. apply in_or_app. right. rewrite Hh. left. reflexivity. }
       unfold pending; cbn. rewrite P, Fp. reflexivity.
     + destruct (mchild s) eqn:Ch; try discriminate. injection A as <- <-.
       unfold pending; cbn. rewrite ?Ch. destruct (mpc s); try discriminate; reflexivity.
@@ -1543,9 +1621,9 @@ Proof.
     + injection A as <- <-. reflexivity.
 Qed.
 
-Theorem starts_follow_visits c : 0 < rate c -> forall acts s ins outs s' tr,
+Theorem starts_follow_visits c : wf c -> forall acts s ins outs s' tr,
   Inv c ins outs s -> mq_run c s acts = Some (s', tr) ->
-  pending s ++ served (tr_visits tr) = map flow (tr_starts tr) ++ pending s'.
+  pending c s ++ served (tr_visits tr) = map (pclass c) (tr_starts tr) ++ pending c s'.
 Proof.
   intros R. induction acts as [|a rest IH]; intros s ins outs s' tr Iv H; cbn in H.
   - injection H as <- <-. cbn. rewrite app_nil_r. reflexivity.
@@ -1560,22 +1638,22 @@ Qed.
 (* ---------------------------------------------------------------------------------------------- *)
 (* statements for executions from the initial state *)
 
-Theorem tx_wf_run0 c acts s tr : 0 < rate c -> mq_run c (mq0 c) acts = Some (s, tr) -> tx_wf c None tr.
+Theorem tx_wf_run0 c acts s tr : wf c -> mq_run c (mq0 c) acts = Some (s, tr) -> tx_wf c None tr.
 Proof. intros R H. apply (tx_wf_run c R acts (mq0 c) [] [] s tr (inv0 c) H). Qed.
 
 Theorem visits_run0 c acts s tr :
-  0 < rate c -> brk c = false -> mq_run c (mq0 c) acts = Some (s, tr) ->
+  wf c -> brk c = false -> mq_run c (mq0 c) acts = Some (s, tr) ->
   exists k, walk (pass c) (pass c) (tr_visits tr) = Some k /\ norm (pass c) k = norm (pass c) (cursor c s).
 Proof. intros R B H. apply (visits_run c R B acts (mq0 c) [] [] s tr (pass c) (inv0 c) H). reflexivity. Qed.
 
 Theorem starts_follow_visits0 c acts s tr :
-  0 < rate c -> mq_run c (mq0 c) acts = Some (s, tr) ->
-  served (tr_visits tr) = map flow (tr_starts tr) ++ pending s.
+  wf c -> mq_run c (mq0 c) acts = Some (s, tr) ->
+  served (tr_visits tr) = map (pclass c) (tr_starts tr) ++ pending c s.
 Proof. intros R H. apply (starts_follow_visits c R acts (mq0 c) [] [] s tr (inv0 c) H). Qed.
 
 Theorem work_conserving0 c acts s tr t x :
   cfg_ok c -> mq_run c (mq0 c) acts = Some (s, tr) -> mq_act c s (SAdvance t) = Some x ->
-  (exists p dl, mchild s = CTx p dl /\ mcur s = Some p /\ mnow s < dl) \/ (forall f, held_flow s f = []).
+  (exists p dl, mchild s = CTx p dl /\ mcur s = Some p /\ mnow s < dl) \/ (forall f, held_class c s f = []).
 Proof. intros Ok H A. apply (work_conserving c s t x Ok); [exists acts, tr; exact H|exact A]. Qed.
 
 Theorem never_spins0 c acts s tr : cfg_ok c -> mq_run c (mq0 c) acts = Some (s, tr) -> mpc s <> PSpin.
@@ -1583,27 +1661,28 @@ Proof. intros Ok H. apply (never_spins c s Ok). exists acts, tr. exact H. Qed.
 
 Theorem drained0 c acts s tr :
   cfg_ok c -> mq_run c (mq0 c) acts = Some (s, tr) -> urgent c s = false -> (forall p dl, mchild s <> CTx p dl) ->
-  (forall f, held_flow s f = []) /\ (forall f, mqc s f = 0%Z /\ mqb s f = 0%Z) /\ mcur s = None /\
+  (forall f, held_class c s f = []) /\ (forall f, mqc s f = 0%Z /\ mqb s f = 0%Z) /\ mcur s = None /\
   (forall f, filter (is_flow f) (tr_puts tr) = filter (is_flow f) (tr_fwds tr)) /\ mpc s <> PSpin.
 Proof.
   intros Ok H U Nd. assert (Rs : reachable c s) by (exists acts, tr; exact H).
   destruct (drained c s Ok Rs U Nd) as (He & Hq & Hc). split; [exact He|]. split; [exact Hq|]. split; [exact Hc|].
   split; [|apply (never_spins c s Ok Rs)].
-  intros f. destruct (run_conserves c acts s tr (proj1 Ok) H) as [Hcv _]. rewrite (Hcv f), (He f), app_nil_r. reflexivity.
+  intros f. destruct (run_conserves c acts s tr (proj1 Ok) H) as (_ & Hcv & _). rewrite (Hcv f). unfold held_flow. rewrite (He (cls c f)).
+  cbn. rewrite app_nil_r. reflexivity.
 Qed.
 
 Theorem monitor_samples0 c acts s tr incl :
-  0 < rate c -> mq_run c (mq0 c) acts = Some (s, tr) ->
+  wf c -> mq_run c (mq0 c) acts = Some (s, tr) ->
   mq_act c s (SSample incl) =
-    Some (s, [OSample (map (fun f => let l := if incl then held_flow s f else waiting_flow s f in
-                                     (f, Z.of_nat (length l), sumsz l)) (dflows c))]).
+    Some (s, [OSample (map (fun f => let l := if incl then held_flow c s f else waiting_flow c s f in
+                                     (f, Z.of_nat (length l), sumsz l)) (sflows c))]).
 Proof.
   intros R H. cbn [mq_act]. do 4 f_equal. apply map_ext. intros f.
   apply (monitor_samples c s incl f R). exists acts, tr. exact H.
 Qed.
 
 Theorem visit_meaning0 c acts s tr a s' o f b :
-  0 < rate c -> mq_run c (mq0 c) acts = Some (s, tr) -> mq_act c s a = Some (s', o) -> In (OVisit f b) o ->
+  wf c -> mq_run c (mq0 c) acts = Some (s, tr) -> mq_act c s a = Some (s', o) -> In (OVisit f b) o ->
   if b then exists x rest, items (mstores s f) = x :: rest /\ get (mstores s' f) = GGranted x /\ items (mstores s' f) = rest
-  else items (mstores s f) = [] /\ held_flow s f = [].
+  else items (mstores s f) = [] /\ held_class c s f = [].
 Proof. intros R H. apply (visit_meaning c s a s' o f b R). exists acts, tr. exact H. Qed.
